@@ -397,8 +397,10 @@ def impl_model(desc) -> Impl:
     im = Impl()
     im.circuit = build_circuit(desc)
     im.network = transform_circuit(im.circuit, w=0)
-    im.cvals = {c.id: float(c.value['C']) for c in im.circuit.components if c.type == 'capacitor'}
-    im.lvals = {c.id: float(c.value['L']) for c in im.circuit.components if c.type == 'inductance'}
+    # (integer-typed stream: the dictionaries carry the numbers as the caller typed them — `dict[str, float]` admits ints)
+    cast = (lambda x: x) if desc.get('int_values') else float
+    im.cvals = {c.id: cast(c.value['C']) for c in im.circuit.components if c.type == 'capacitor'}
+    im.lvals = {c.id: cast(c.value['L']) for c in im.circuit.components if c.type == 'inductance'}
     captured = []
     orig = np.linalg.inv
     def spy(a):
